@@ -211,6 +211,17 @@ type ShelleyBlockHeader struct {
 	Body      ShelleyBlockHeaderBody
 	Signature []byte
 }
+
+// MarshalCBOR returns the original bytes of a decoded block header so that
+// re-serialising an unmodified object reproduces what was on the wire (and
+// still hashes to its identifier), also for non-canonical encodings.
+func (h *ShelleyBlockHeader) MarshalCBOR() ([]byte, error) {
+	if h.Cbor() != nil {
+		return h.Cbor(), nil
+	}
+	return cbor.EncodeGeneric(h)
+}
+
 type ShelleyBlockHeaderBody struct {
 	cbor.StructAsArray
 	cbor.DecodeStoreCbor
